@@ -759,7 +759,19 @@ class Interp:
 
     # ------------------------------------------------------------------ expressions
     def truth(self, v: Any) -> bool:
-        if isinstance(v, (AObj, ClassVal, FuncVal, ACtx, Tok, EnumVal)):
+        if isinstance(v, AObj):
+            # Python's rule: __bool__, else __len__, else true
+            for dunder in ("__bool__", "__len__"):
+                m = self.repo.find_method(v.cls, dunder)
+                if m is not None:
+                    return bool(self.call_func(m, [v], {}))
+            return True
+        if isinstance(v, EnumVal):
+            if any(k.name in ("IntEnum", "IntFlag", "Flag") or (dotted(b) or "").split(".")[-1] in ("IntEnum", "IntFlag", "Flag", "int")
+                   for k in self.repo.mro(v.cls) for b in k.base_exprs):
+                raise Unsupported(f"truth value of a member of the integer enumeration {v.cls.name}")
+            return True
+        if isinstance(v, (ClassVal, FuncVal, ACtx, Tok)):
             return True
         return bool(v)
 
